@@ -146,3 +146,33 @@ def _fold_subs(t):
     if t[0] == 'sub':
         return _mk_sub(t[1], t[2])
     return t
+
+
+def dim_checks(P, fi, context=None):
+    """ensure_* / ensure_equal_dims calls executed on every normal path of fi, read from the evaluated paths
+    (loops over literal tuples are unrolled, helpers are inlined).  Returns a list, one entry per return path, of
+    [(callee short name, set of parameter names reaching `to_check`, dim literal or None)]."""
+    from ..paths import Evaluator, atoms, is_c
+    out = []
+    exits = Evaluator(P).run(fi, context=context or {})
+    for e in exits:
+        if e.kind != 'return':
+            continue
+        calls = []
+        terms = [eff[1] for eff in e.state.effects if eff[0] == 'expr']
+        terms += [v for v in e.state.env.values() if isinstance(v, tuple)]
+        terms.append(e.value)
+        seen = set()
+        for t in terms:
+            for x in subterms(t):
+                if x[0] == 'call' and x[1] in ('emd.support.ensure_equal_dims', 'emd.support.ensure_2d',
+                                               'emd.support.ensure_vector', 'emd.support.ensure_1d_with_singleton') \
+                        and x not in seen:
+                    seen.add(x)
+                    kw = dict(x[3])
+                    tc = kw.get('to_check')
+                    names = {a for a in atoms(tc)} if tc is not None else set()
+                    dim = kw.get('dim')
+                    calls.append((x[1].split('.')[-1], names, dim[1] if dim is not None and is_c(dim) else None))
+        out.append(calls)
+    return out
